@@ -1,4 +1,5 @@
 import RsModel.Model.Tree
+import RsModel.Lemmas.RopeTree
 /-!
 # C07 — all content views of a source agree
 -/
@@ -144,5 +145,59 @@ theorem c07_concat (cs : SrcList) : (Src.concat cs).src = cs.srcs ∧ (Src.conca
 theorem c07_binary (b l : Text) : (Src.rawBuf b l).buffer = b ∧ (Src.rawBuf b l).src = l := ⟨by simp [Src.buffer], by simp [Src.src]⟩
 
 example : (Src.concat (.cons (.rawStr [97]) (.cons (.rawBuf [255] [239, 191, 189]) .nil))).size = 2 := by decide
+
+
+/-- **`rope()` renders to `source()`** for every tree (all node kinds, any depth): it does not panic, and the rope it
+returns stands for exactly the string `source()` returns.  `Src.RopeOK` = every text is a `&str` (does not start inside
+a character) and the ends of every replacement, clamped to the wrapped text, are char boundaries of it — the property's
+domain.  The proof goes through the binary searches and the piece cutting of `Rope::byte_slice` (`byteSlice_spec`). -/
+theorem c07_rope (s : Src) (h : s.RopeOK) : ∃ r, s.rope = .ok r ∧ r.render = s.src :=
+  let ⟨r, h1, h2, _⟩ := Src.rope_spec s h
+  ⟨r, h1, h2⟩
+
+/-- non-vacuity: a replacement across a two-child concat with a multi-byte character, one end beyond the text -/
+example : (Src.replace (.concat (.cons (.rawStr [97, 0xC3, 0xA9]) (.cons (.orig [98, 99] [102]) .nil)))
+    [⟨1, 3, [120], none, 1⟩, ⟨4, 99, [], none, 1⟩]).RopeOK := by
+  refine ⟨⟨by simp only [Src.RopeOK]; decide, by simp only [Src.RopeOK]; decide, trivial⟩, ?_⟩
+  intro r hr
+  simp only [List.mem_cons, List.not_mem_nil, or_false] at hr
+  rcases hr with rfl | rfl <;> exact ⟨by decide, by decide, by decide⟩
+
+
+mutual
+/-- every leaf holds valid UTF-8: the lossy decoding of a buffer leaf is the buffer itself -/
+def Src.Utf8Leaves : Src → Prop
+  | .raw _ bytes lossy => bytes = lossy
+  | .rawStr _ => True
+  | .rawBuf bytes lossy => bytes = lossy
+  | .orig _ _ => True
+  | .sms _ _ _ _ _ _ => True
+  | .concat cs => cs.Utf8Leavess
+  | .replace inner _ => inner.Utf8Leaves
+  | .cached _ inner => inner.Utf8Leaves
+def SrcList.Utf8Leavess : SrcList → Prop
+  | .nil => True
+  | .cons s r => s.Utf8Leaves ∧ r.Utf8Leavess
+end
+
+mutual
+theorem Src.buffer_eq_src : (s : Src) → s.Utf8Leaves → s.buffer = s.src
+  | .raw _ _ _, h => by simpa [Src.buffer, Src.src, Src.Utf8Leaves] using h
+  | .rawStr _, _ => rfl
+  | .rawBuf _ _, h => by simpa [Src.buffer, Src.src, Src.Utf8Leaves] using h
+  | .orig _ _, _ => rfl
+  | .sms _ _ _ _ _ _, _ => rfl
+  | .concat cs, h => by simp only [Src.buffer, Src.src]; exact SrcList.buffers_eq_srcs cs h
+  | .replace _ _, _ => rfl
+  | .cached _ inner, h => by simp only [Src.buffer, Src.src]; exact Src.buffer_eq_src inner h
+theorem SrcList.buffers_eq_srcs : (l : SrcList) → l.Utf8Leavess → l.buffers = l.srcs
+  | .nil, _ => rfl
+  | .cons s r, h => by
+    simp only [SrcList.buffers, SrcList.srcs]
+    rw [Src.buffer_eq_src s h.1, SrcList.buffers_eq_srcs r h.2]
+end
+
+/-- when every leaf holds valid UTF-8, `buffer()` is the bytes of `source()` -/
+theorem c07_utf8 (s : Src) (h : s.Utf8Leaves) : s.buffer = s.src := Src.buffer_eq_src s h
 
 end Rs
